@@ -143,6 +143,8 @@ class Machine:
         self.fn_cache = {}
         self.depth = 0
         self.track_reads = False
+        self.in_guard = 0
+        self.guard_writes = {}
         self._init_globals()
 
     # ------------------------------------------------------------------ memory
@@ -270,9 +272,10 @@ class Machine:
         if o.const and self.depth > 0:
             raise MemError("store to constant global %s" % o.name)
         self.store_raw(o, off, size, v)
-        w = self.writes.get(o.id)
+        tab = self.guard_writes if self.in_guard > 0 else self.writes
+        w = tab.get(o.id)
         if w is None:
-            w = self.writes[o.id] = set()
+            w = tab[o.id] = set()
         w.add((off, size))
 
     def load_raw(self, a, size):
@@ -1225,13 +1228,13 @@ def _guard_acquire(m, args, _n=None):
     m.events.append(("guard_acquire", args[0]))
     if b & 1:
         return 0
-    m.in_guard = getattr(m, "in_guard", 0) + 1
+    m.in_guard += 1
     return 1
 
 
 def _guard_release(m, args, _n=None):
     m.store(args[0], 1, 1)
-    m.in_guard = getattr(m, "in_guard", 1) - 1
+    m.in_guard = max(0, m.in_guard - 1)
     m.events.append(("guard_release", args[0]))
     return None
 
